@@ -46,6 +46,8 @@ def cargo_build(ctx, packages, profile, extra_env=None, extra_args=None, toolcha
     cmd += ["build", "--offline"]
     if profile == "release":
         cmd.append("--release")
+    elif profile not in ("dev", "debug"):
+        cmd += ["--profile", profile]
     for p in packages:
         cmd += ["-p", p]
     cmd += list(extra_args or ())
@@ -64,7 +66,8 @@ def cargo_build(ctx, packages, profile, extra_env=None, extra_args=None, toolcha
 
 
 def engine_path(ctx, engine, profile):
-    return os.path.join(ctx.target, "release" if profile == "release" else "debug", engine)
+    sub = "release" if profile == "release" else ("debug" if profile in ("dev", "debug") else profile)
+    return os.path.join(ctx.target, sub, engine)
 
 
 # ---------------------------------------------------------------------------------------------
